@@ -65,6 +65,7 @@ type ReplayFile struct {
 	Scenario string     `json:"scenario"`
 	Desc     string     `json:"description"`
 	Level    string     `json:"level"`
+	Bound    int        `json:"bound"`
 	Choices  []int      `json:"choices"`
 	Options  [][]string `json:"options"`
 	Trace    []string   `json:"trace"`
@@ -273,7 +274,7 @@ func sampleOf(sc *Scenario, x *Exec) json.RawMessage {
 
 func (e *Explorer) writeReplay(sc *Scenario, x *Exec, v Violation) string {
 	rf := ReplayFile{Property: v.Prop, Rule: v.Rule, Sig: v.Sig, Detail: v.Detail, Scenario: sc.Name, Desc: sc.Desc,
-		Level: sc.Opt.Level, Choices: x.Choices(), Trace: x.Trace}
+		Level: sc.Opt.Level, Bound: sc.Opt.Bound, Choices: x.Choices(), Trace: x.Trace}
 	for _, p := range x.Points {
 		rf.Options = append(rf.Options, p.Names)
 	}
